@@ -539,7 +539,7 @@ func init() {
 		return c19Res(dirhash.HashDir(dir, m.Path+"@"+m.Version, dirhash.Hash1))
 	}
 	register(&Prop{ID: "C19", Gen: genC19, Oracle: oracleC19,
-		Rule: "file sets of 0-12 (name, content) pairs from pools (unicode, spaces, double spaces, prefixes of each other, case pairs, newline/NUL/0xff names, hex-looking names, empty and equal contents, SHA-256 block-boundary lengths) and their permutations; real directories (trees of depth <= 3, weird prefixes) and real zips (archive/zip with duplicates and directory entries; zip.Create module zips extracted by zip.Unzip); non-trivial = at least two files or a refusal path; distinct by op line"})
+		Rule: "file sets of 0-12 (name, content) pairs from pools (unicode, spaces, double spaces, prefixes of each other, case pairs, newline/NUL/0xff names, hex-looking names, empty and equal contents, SHA-256 block-boundary lengths) and their permutations; real directories (trees of depth <= 3, weird prefixes) and real zips (archive/zip with duplicates and directory entries; zip.Create module zips extracted by zip.Unzip); `open` readers that deliver in short reads / data with io.EOF / empty reads; one file of 32 KiB-70 KiB (flate window, io.Copy buffer, 64 KiB boundaries) in some zips and directories; directories named relative to a working directory (., ../c19root, c19root, sub/..) with top-level dot names; non-trivial = at least two files or a refusal path; distinct by op line"})
 }
 
 // ---- generators
@@ -595,8 +595,8 @@ func c19GenBigContent(r *Rand) string {
 	if r.Chance(30) {
 		n += r.Intn(3000)
 	}
-	if thorough && r.Chance(20) {
-		n += 100000 + r.Intn(200000)
+	if thorough && r.Chance(10) {
+		n += r.Intn(131072)
 	}
 	// a random part (hardly compressible: literal blocks) and a repetitive part (long matches)
 	k := r.Intn(n + 1)
@@ -611,6 +611,9 @@ func c19GenBigContent(r *Rand) string {
 // c19MakeOneBig replaces, with probability pct percent, one content (not that of go.mod, not a directory
 // entry) by a big one.
 func c19MakeOneBig(r *Rand, pct int, names, contents []string) bool {
+	if thorough {
+		pct = (pct + 2) / 3 // 20 times as many ops: keep the volume of the op file moderate
+	}
 	if len(contents) == 0 || !r.Chance(pct) {
 		return false
 	}
